@@ -6,11 +6,13 @@ from engines.strs import run_strs, finish_strs_obligation
 MODULES = ["BumpProof.Props.C09"]
 
 PARTIAL = [
-    "from_utf8 / from_utf8_lossy / from_utf16 / from_utf16_lossy and formatting (alloc_fmt, write!, Display/Debug) are NOT modelled: "
-    "they are core's from_utf8 / utf8_chunks / decode_utf16 / fmt plus the modelled push/push_str; they are compared with std on generated "
-    "(also malformed) inputs only (section `decode_and_formatting(std-only)` of the correspondence record)",
-    "the growth policy (capacity) of BumpString/MutBumpString is not part of this model (buffer engine); growable strings are assumed to get "
-    "their memory (allocation failure is C07's subject); capacity is modelled and compared for FixedBumpString only",
+    "from_utf8_lossy and formatting (alloc_fmt, write!, Display/Debug) are NOT modelled: they are core's utf8_chunks / fmt plus the modelled "
+    "push/push_str; they are compared with std on generated (also malformed) inputs only (section `decode_and_formatting(std-only)`). "
+    "from_utf8 is modelled as accept-iff-validUtf8 (the Utf8Error position is std-compared only); from_utf16(_lossy) is modelled "
+    "(decode_utf16 + push loop) and proved to hold the characters for well-formed input and to be valid UTF-8 for every input",
+    "growable strings are assumed to get their memory (allocation failure / capacity overflow is C07's subject); the capacity of BumpString "
+    "is modelled exactly (generic_grow_amortized / generic_grow_exact), that of MutBumpString up to the arena's grant (an input of the model, "
+    "taken from the observation); shrink_to_fit / shrink_to are not modelled",
     "char::encode_utf8 / str::chars / is_char_boundary are core primitives: the model uses Lean core's String.utf8EncodeChar and a hand-written "
     "decoder proved inverse to it; the tie to rustc's primitives is the correspondence run (every op line carries the resulting bytes)",
     "finding C09-a (split_off with an empty range inside a character returns \"\" instead of panicking) is carved out of the `panics iff` theorem "
@@ -21,7 +23,7 @@ PARTIAL = [
 def run(ctx):
     q = ctx.quick()
     ctx.extra["rule"] = ("operation sequences (push, push_str, insert, insert_str, remove, pop, truncate, clear, retain with a panicking/"
-                         "dropping predicate, drain, replace_range, extend_from_within, split_off, into_cstr) on BumpBox<str>, FixedBumpString, "
+                         "dropping predicate, drain, replace_range, extend_from_within, split_off, reserve, reserve_exact, into_cstr; constructors from_str_in / with_capacity_in+push_str, from_utf8, from_utf16(_lossy)) on BumpBox<str>, FixedBumpString, "
                          "BumpString and MutBumpString (both bump directions) next to std::string::String; texts mix 1-4 byte characters incl. NUL, "
                          "U+0080/U+07FF/U+0800/U+D7FF/U+E000/U+FFFF/U+10000/U+10FFFF; indices: boundaries, inside characters, len, len+1.., "
                          "usize::MAX; all bound forms; sweeps: EVERY byte index / index pair of a text on a fresh string of every kind; "
